@@ -123,10 +123,15 @@ def _scenario(args):
                 with open(paths[fkey], 'wb') as f:
                     f.write(OLD[fkey])
             argv = [['../nothere.asm' if t == 'missing-input' else (main if rng.random() < 0.5 else '../main.asm')]]
+            if t == 'out-nodir':
+                paths['out'] = os.path.join(cwd, 'nodir', outname)
+                paths['hex'] = paths['out'] + '.hex'
+            if t == 'lab-nodir':
+                paths['lab'] = os.path.join(cwd, 'nodir', 'out.lab')
             if not sc['defout']:
-                argv += [['-o', outname]]
+                argv += [['-o', os.path.relpath(paths['out'], cwd)]]
             if sc['labels']:
-                argv += [['-l', 'out.lab']]
+                argv += [['-l', os.path.relpath(paths['lab'], cwd)]]
             if sc['compress']:
                 argv += [['-c']]
             if sc.get('verbose'):
@@ -170,7 +175,8 @@ def _scenario(args):
                 else:
                     state[fkey] = 'old' if open(p, 'rb').read() == prewritten.get(fkey) else 'new'
             # stray files
-            extra = sorted(set(os.listdir(cwd)) - {os.path.basename(p) for p in paths.values()})
+            known = {os.path.basename(p) for p in paths.values() if os.path.dirname(p) == cwd}
+            extra = sorted(x for x in os.listdir(cwd) if x not in known)
             if (code == 0) != (exit_exp == 0):
                 problems.append('ExitStatus' if exit_exp == 0 else 'FailureExitsNonZero')
             if exit_exp != 0 and code != 0 and 'Traceback' in errtext:
@@ -210,20 +216,21 @@ def _scenario(args):
 def c17(run, scratch):
     def cfg(dev):
         p = os.path.join(scratch, 'cli_%s.cfg' % dev)
-        tlc.write_cfg(p, spec='Spec', constants={'Dev_LateHexCheck': dev},
+        tlc.write_cfg(p, spec='Spec', constants={'Dev_LateHexCheck': dev == 'hex', 'Dev_LateOutCheck': dev == 'out'},
                       invariants=['SuccessFilesExact', 'FailureLeavesFilesUntouched', 'ExitMatchesTrouble', 'WritesOnlyAfterAllChecks'] + ([] if dev else ['Export']))
         return p
-    r = tlc.run('AsmCli', cfg(False), workers=1, heap='3g', timeout=1800, coverage=True)
+    r = tlc.run('AsmCli', cfg(''), workers=1, heap='3g', timeout=1800, coverage=True)
     if r.invariant_violated or not r.completed:
         raise tlc.TlcFailure('AsmCli model violates its invariants: ' + r.out[-2000:])
     run.add_tlc('AsmCli', r)
     cov = r.coverage()
-    for act in ('CheckInput', 'CheckIncludeDirs', 'ParseHexOffset', 'Assemble', 'CheckHexRange', 'WriteLabels', 'WriteBinary', 'WriteHex'):
+    for act in ('CheckInput', 'CheckIncludeDirs', 'ParseHexOffset', 'Assemble', 'CheckHexRange', 'CheckOutputs', 'WriteLabels', 'WriteBinary', 'WriteHex'):
         if cov.get(act, (0, 0))[1] == 0:
             raise tlc.TlcFailure('non-vacuity: action %s never taken' % act)
-    r2 = tlc.run('AsmCli', cfg(True), workers=1, heap='3g', timeout=1800)
-    if 'FailureLeavesFilesUntouched' not in r2.invariant_violated:
-        raise tlc.TlcFailure('non-vacuity: the late-hex-check deviation is not caught by FailureLeavesFilesUntouched')
+    for dev in ('hex', 'out'):
+        r2 = tlc.run('AsmCli', cfg(dev), workers=1, heap='3g', timeout=1800)
+        if 'FailureLeavesFilesUntouched' not in r2.invariant_violated:
+            raise tlc.TlcFailure('non-vacuity: the late-%s-check deviation is not caught by FailureLeavesFilesUntouched' % dev)
     scs = []
     for v in r.printed():
         if v and v[0] == 'CLI':
@@ -279,13 +286,13 @@ def c17(run, scratch):
         raise tlc.TlcFailure('non-vacuity: only %d runs over look-alike older files' % nstale)
     run.coverage['runs_over_lookalike_older_files'] = nstale
     run.coverage['rule'] = ('TLC explores AsmCli over every scenario: option subsets of {-l, --hex-offset, -c, -i, -o/default} x pre-existing out/label/hex files (unrelated content, or for 40% of the successful runs what the command itself writes plus a stale tail / minus its end) x trouble in '
-                            '{none, missing input, bad include dir, hex offset bad syntax / negative / beyond 4 GiB, assembler failure in each of 8 passes}; each scenario is materialised '
+                            '{none, missing input, bad include dir, hex offset bad syntax / negative / beyond 4 GiB, -o or -l in a directory that does not exist, assembler failure in each of 8 passes}; each scenario is materialised '
                             '(random argument order, absolute/relative input path, several offsets) and run through the real cli_main() in-process with write-order recording, and in a '
                             'subprocess for a sample; exit status, final state of every file, stray files, -o bytes vs assemble(), -l lines vs the label table; hex files decoded by TLC')
     for res in results[:3]:
         run.sample({k: res[k] for k in ('sc', 'argv', 'exit', 'state', 'effects')})
     run.coverage['trusted_base'] = ['TLC', 'IntelHex.tla as the reading of the Intel HEX format', 'the harness splits hex lines into integer fields and classifies files as absent/old/new']
-    run.assumptions += ['OS-level write failures (unwritable directory, full disk) are outside the property\'s quantifier and not injected',
+    run.assumptions += ['output paths in a directory that does not exist are injected (troubles out-nodir / lab-nodir); other OS-level write failures (permissions, full disk) are outside the property\'s quantifier and not injected',
                         'an empty --hex-offset argument is treated as the option not being given']
 
 
